@@ -612,3 +612,106 @@ Proof.
   destruct (handle_payload_wf c2' pyproject_name _ W2) as (c3 & ->). simpl.
   apply handle_yaml_wf; [discriminate|exact W1].
 Qed.
+
+(** ** repeated paths: precedence goes by POSITION in the consulted order *)
+Lemma first_setting_position says hi v lo x :
+  (forall q, In q hi -> says q = None) -> says v = Some x ->
+  first_setting says (hi ++ v :: lo)%list = Some x.
+Proof.
+  intros Hhi Hv. induction hi as [|q r IH]; simpl.
+  - rewrite Hv. reflexivity.
+  - rewrite (Hhi q) by (left; reflexivity). apply IH. intros; apply Hhi; right; assumption.
+Qed.
+
+Lemma position_says (says : val -> option val) (hi : list (string * val)) :
+  (forall q, In q hi -> says (snd q) = None) -> forall w, In w (map snd hi) -> says w = None.
+Proof. intros H w Hw. apply in_map_iff in Hw as (q & <- & Hq). apply H; exact Hq. Qed.
+
+Lemma init_highest_position_wins e fs c c' hi path v lo :
+  skip_requested e = false -> init e fs c = COk c' ->
+  precedence e fs = (hi ++ (path, v) :: lo)%list ->
+  (forall s x, In s scalar_props ->
+     (forall q, In q hi -> file_sets (VStr s) (snd q) = None) ->
+     file_sets (VStr s) v = Some x -> setting s c' = Some x)
+  /\ (forall k x,
+     (forall q, In q hi -> file_sets_in "vars" k (snd q) = None) ->
+     file_sets_in "vars" k v = Some x -> dict_get k (c_vars c') = Some x)
+  /\ (forall k x,
+     (forall q, In q hi -> file_sets_in "shortcuts" k (snd q) = None) ->
+     file_sets_in "shortcuts" k v = Some x -> dict_get k (c_shortcuts c') = Some x).
+Proof.
+  intros S H P. repeat split.
+  - intros s x Hs Hhi Hv. rewrite (init_scalar _ _ _ _ _ S H Hs), P, map_app. simpl map.
+    rewrite (first_setting_position _ _ _ _ x (position_says _ _ Hhi) Hv). reflexivity.
+  - intros k x Hhi Hv. rewrite (init_vars _ _ _ _ k S H), P, map_app. simpl map.
+    rewrite (first_setting_position _ _ _ _ x (position_says _ _ Hhi) Hv). reflexivity.
+  - intros k x Hhi Hv. rewrite (init_shortcuts _ _ _ _ k S H), P, map_app. simpl map.
+    rewrite (first_setting_position _ _ _ _ x (position_says _ _ Hhi) Hv). reflexivity.
+Qed.
+
+(** ** [config_loaded_paths]: one entry per consulted position that was merged *)
+Lemma loaded_of_app a b : loaded_of (a ++ b)%list = (loaded_of a ++ loaded_of b)%list.
+Proof. unfold loaded_of. rewrite filter_app, map_app. reflexivity. Qed.
+
+Lemma handle_payload_loaded c path v c' :
+  handle_payload c path v = COk c' -> c_loaded c' = (c_loaded c ++ loaded_of [(path, v)])%list.
+Proof.
+  intros H. apply handle_payload_ok in H as [[[->| ->] ->]|(d & c1 & -> & N & U & ->)].
+  - simpl. rewrite app_nil_r. reflexivity.
+  - simpl. rewrite app_nil_r. reflexivity.
+  - apply update_ok in U as (_ & sh & vs & _ & _ & ->). destruct d; [congruence|]. reflexivity.
+Qed.
+
+Lemma handle_yaml_loaded fs c p raise c' :
+  handle_yaml fs c p raise = COk c' -> c_loaded c' = (c_loaded c ++ loaded_of [(p, payload_at fs p)])%list.
+Proof.
+  unfold handle_yaml. intros H. apply cbind_ok in H as (v & L & H).
+  apply load_yaml_ok in L; subst v. apply handle_payload_loaded; exact H.
+Qed.
+
+Lemma handle_yamls_loaded fs : forall ps c c',
+  handle_yamls fs c ps = COk c' ->
+  c_loaded c' = (c_loaded c ++ loaded_of (map (fun p => (p, payload_at fs p)) ps))%list.
+Proof.
+  induction ps as [|p r IH]; simpl; intros c c' H.
+  - inversion H. rewrite app_nil_r. reflexivity.
+  - apply cbind_ok in H as (c1 & H1 & H2).
+    rewrite (IH _ _ H2), (handle_yaml_loaded _ _ _ _ _ H1), <- app_assoc.
+    f_equal. symmetry. apply (loaded_of_app [_]).
+Qed.
+
+Lemma handle_pyproject_loaded fs c c' :
+  handle_pyproject fs c pyproject_name = COk c' ->
+  c_loaded c' = (c_loaded c ++ loaded_of [(pyproject_name, pyproject_payload fs)])%list.
+Proof.
+  unfold handle_pyproject. intros H. apply cbind_ok in H as ([c1 v] & L & H). simpl in H.
+  apply load_pyproject_ok in L as (-> & [->|(t & ->)]);
+    rewrite (handle_payload_loaded _ _ _ _ H); reflexivity.
+Qed.
+
+Lemma loaded_of_cons x l : loaded_of (x :: l) = (loaded_of [x] ++ loaded_of l)%list.
+Proof. apply (loaded_of_app [x] l). Qed.
+
+Lemma init_loaded e fs c c' :
+  skip_requested e = false -> init e fs c = COk c' ->
+  c_loaded c' = (c_loaded c ++ loaded_of (rev (precedence e fs)))%list.
+Proof.
+  intros S H. unfold init in H. rewrite S in H.
+  apply cbind_ok in H as (c2 & H12 & H).
+  apply cbind_ok in H as (c3 & H3 & H4).
+  rewrite (handle_yaml_loaded _ _ _ _ _ H4), (handle_pyproject_loaded _ _ _ H3).
+  unfold precedence.
+  set (X := match global_path e with
+            | Some g => [(g, payload_at fs g)]
+            | None => (user_path e, payload_at fs (user_path e))
+                      :: map (fun p => (p, payload_at fs p)) (common_paths e)
+            end).
+  assert (E2 : c_loaded c2 = (c_loaded c ++ loaded_of (rev X))%list).
+  { subst X. destruct (global_path e) as [g|].
+    - apply cbind_ok in H12 as (c1 & H1 & E). inversion E; subst. simpl c_loaded.
+      rewrite (handle_yaml_loaded _ _ _ _ _ H1). reflexivity.
+    - apply cbind_ok in H12 as (c1 & H1 & H2).
+      rewrite (handle_yaml_loaded _ _ _ _ _ H2), (handle_yamls_loaded _ _ _ _ H1). simpl c_loaded.
+      simpl rev. rewrite loaded_of_app, <- map_rev, <- app_assoc. reflexivity. }
+  rewrite E2. simpl rev. rewrite !loaded_of_app, <- !app_assoc. reflexivity.
+Qed.
